@@ -7,7 +7,8 @@
    Conventions
      * every loop of the C++ that is not bounded by a count has explicit fuel; fuel running out is the outcome [RSpin];
        count loops are structural recursions on the count;
-     * every use of an uninitialised local and every int-handle overflow is the outcome [RUB];
+     * every int-handle overflow and every use of an invalid handle is the outcome [RUB] (the uninitialised locals of
+       the original deserializers were repaired in /repo: fixes 02047e4, 1ccacde, 12ef533);
      * allocation: reserve / resize / vector(n) of n elements of [esz] bytes throws length_error when n exceeds the
        container's max_size and bad_alloc when n*esz exceeds [o_alloc] bytes (the only modelled memory limit);
      * floating-point conversion is the Section variables [conv_d] / [conv_f] (see AsciiStream.v); nothing is assumed;
@@ -73,11 +74,10 @@ Inductive aval :=
 | VInt (z : Z)                 (* integral types, char (byte value), bool (0/1), handles *)
 | VFlt (bits : Z)              (* float / double bit pattern *)
 | VStr (s : list byte)
-| VList (l : list aval)        (* std::vector, VectorT; std::map as a key-sorted list of VList [k; v] *)
-| VUndef.                      (* an indeterminate (uninitialised) value *)
+| VList (l : list aval).       (* std::vector, VectorT; std::map as a key-sorted list of VList [k; v] *)
 
-Inductive exn := LengthError | BadAlloc | RuntimeError.
-Inductive ubk := UB_uninit_size | UB_handle_overflow | UB_invalid_halfface.
+Inductive exn := LengthError | BadAlloc.
+Inductive ubk := UB_handle_overflow | UB_invalid_halfface.
 
 Record pentry := { p_kind : kind; p_name : list byte; p_type : atype; p_persistent : bool; p_vals : list aval }.
 
@@ -160,14 +160,15 @@ Definition atype_eqb (a b : atype) : bool :=
 Definition kind_eqb (a b : kind) : bool :=
   match a, b with KV, KV | KE, KE | KHE, KHE | KF, KF | KHF, KHF | KC, KC | KM, KM => true | _, _ => false end.
 
-(* T() for the property types; VectorT() leaves its components uninitialised (Vector11T.hh:111-112) *)
+(* detail::ReaderDefault<T>::get(): T() for the scalar / container types, VectorT(Scalar(0)) for vectors *)
 Definition default_val (t : atype) : aval :=
   match t with
   | TInt | TUInt | TShort | TLong | TULong | TChar | TUChar | TBool => VInt 0
   | TFloat | TDouble => VFlt 0
   | TString => VStr []
   | TMapHehInt | TVecDouble | TVecVh | TVecHfh | TVecVecHfh => VList []
-  | TVec n _ => VList (repeat VUndef n)
+  | TVec n (SF | SD) => VList (repeat (VFlt 0) n)
+  | TVec n (SI | SUI) => VList (repeat (VInt 0) n)
   end.
 
 (* ------------------------------------------------------------------ deserializers *)
@@ -196,8 +197,9 @@ Section Reader.
     | o :: t => let '(s1, v) := deser_scalar sc s o in let '(s2, vs) := deser_vec sc t s1 in (s2, v :: vs)
     end.
 
-  (* `size_t size; _istr >> size;`  -- size stays uninitialised when the sentry fails *)
-  Definition read_size (s : istream) : istream * option Z := get_num NU64 s.
+  (* `size_t size = 0; _istr >> size;` *)
+  Definition read_size (s : istream) : istream * Z :=
+    let '(s1, v) := get_num NU64 s in (s1, match v with Some z => z | None => 0 end).
 
   (* for (i < size) deserialize(_istr, _rhs[i]) over a resized vector of handles / doubles *)
   Fixpoint deser_elems (f : istream -> aval -> istream * aval) (olds : list aval) (s : istream) : istream * list aval :=
@@ -217,14 +219,10 @@ Section Reader.
   (* deserialize(std::istream&, std::vector<ValueT>&), SerializersT_impl.hh:167-177 *)
   Definition deser_vector (o : opts) (esz : Z) (d : aval) (f : istream -> aval -> istream * aval)
              (s : istream) (old : aval) : dres :=
-    let '(s1, sz) := read_size s in
-    match sz with
-    | None => DStop (RUB UB_uninit_size)
-    | Some n =>
-        match alloc o n esz with
-        | Stop out => DStop out
-        | Go _ => let '(s2, vs) := deser_elems f (resize_vals n d (old_list old)) s1 in DOk s2 (VList vs)
-        end
+    let '(s1, n) := read_size s in
+    match alloc o n esz with
+    | Stop out => DStop out
+    | Go _ => let '(s2, vs) := deser_elems f (resize_vals n d (old_list old)) s1 in DOk s2 (VList vs)
     end.
 
   (* vector<vector<HFH>>: the inner deserializer can stop *)
@@ -254,8 +252,8 @@ Section Reader.
     | e :: t => e :: map_insert k v t
     end.
 
-  (* deserialize(std::istream&, std::map<KeyT,ValueT>&), SerializersT_impl.hh:136-153: KeyT key (a handle: -1);
-     ValueT value (an int: uninitialised) *)
+  (* deserialize(std::istream&, std::map<KeyT,ValueT>&), SerializersT_impl.hh:136-153: KeyT key{} (a handle: -1);
+     ValueT value{} (an int: 0) *)
   Fixpoint deser_map_loop (n : nat) (s : istream) (acc : list aval) : istream * list aval :=
     match n with
     | O => (s, acc)
@@ -263,7 +261,7 @@ Section Reader.
         let '(s1, kv) := get_num NI32 s in
         let '(s2, vv) := get_num NI32 s1 in
         deser_map_loop k s2 (map_insert (match kv with Some z => z | None => -1 end)
-                                        (match vv with Some z => VInt z | None => VUndef end) acc)
+                                        (VInt (match vv with Some z => z | None => 0 end)) acc)
     end.
 
   (* deserialize(std::istream&, std::string&), Serializers.cc:53-66 *)
@@ -292,35 +290,28 @@ Section Reader.
     | TLong => let '(s1, v) := get_num NI64 s in DOk s1 (or_old v old)
     | TULong => let '(s1, v) := get_num NU64 s in DOk s1 (or_old v old)
     | TChar | TUChar => let '(s1, v) := get_char s in DOk s1 (or_old v old)
-    | TBool =>                     (* PropertyStorageT<bool>::deserialize: `value_type val;` is not initialised *)
-        let '(s1, v) := get_num NBool s in DOk s1 (match v with Some z => VInt z | None => VUndef end)
+    | TBool =>                     (* PropertyStorageT<bool>::deserialize: `value_type val = data_[i];` *)
+        let '(s1, v) := get_num NBool s in DOk s1 (or_old v old)
     | TFloat => let '(s1, v) := get_float conv_f s in DOk s1 (or_oldf v old)
     | TDouble => let '(s1, v) := get_float conv_d s in DOk s1 (or_oldf v old)
     | TString => deser_string o s old
     | TMapHehInt =>
-        let '(s1, sz) := read_size s in
-        match sz with
-        | None => DStop (RUB UB_uninit_size)
-        | Some n => let '(s2, l) := deser_map_loop (Z.to_nat n) s1 [] in DOk s2 (VList l)
-        end
+        let '(s1, n) := read_size s in
+        let '(s2, l) := deser_map_loop (Z.to_nat n) s1 [] in DOk s2 (VList l)
     | TVecDouble => deser_vector o 8 (VFlt 0) deser_double s old
     | TVecVh | TVecHfh => deser_vector o 4 (VInt (-1)) deser_handle s old
     | TVecVecHfh =>
-        let '(s1, sz) := read_size s in
-        match sz with
-        | None => DStop (RUB UB_uninit_size)
-        | Some n =>
-            match alloc o n 24 with
-            | Stop out => DStop out
-            | Go _ =>
-                match deser_vecvec o (resize_vals n (VList []) (old_list old)) s1 with
-                | inr out => DStop out
-                | inl (s2, vs) => DOk s2 (VList vs)
-                end
+        let '(s1, n) := read_size s in
+        match alloc o n 24 with
+        | Stop out => DStop out
+        | Go _ =>
+            match deser_vecvec o (resize_vals n (VList []) (old_list old)) s1 with
+            | inr out => DStop out
+            | inl (s2, vs) => DOk s2 (VList vs)
             end
         end
     | TVec n sc =>
-        let olds := match old with VList l => l | _ => repeat VUndef n end in
+        let olds := match old with VList l => l | _ => old_list (default_val (TVec n sc)) end in
         let '(s1, vs) := deser_vec sc olds s in DOk s1 (VList vs)
     end.
 
@@ -354,12 +345,7 @@ Section Reader.
   Definition generate_property (o : opts) (m : mesh) (k : kind) (name : list byte) (t : atype)
              (s : istream) (props : list pentry) : res (istream * list pentry) :=
     match name with
-    | [] =>
-        (* request_property("") creates a non-shared property; set_persistent throws std::runtime_error *)
-        match deser_all o t (repeat (default_val t) (count k m)) s with
-        | inr out => Stop out
-        | inl _ => Stop (RExn RuntimeError)
-        end
+    | [] => Go (set_fail s, props)      (* fix fa05513: a property without a name sets failbit and is not read *)
     | _ =>
         match find_prop k name t props 0 with
         | Some (i, p) =>
@@ -394,9 +380,11 @@ Section Reader.
             match type_of_name prop_t with
             | None => Go (s1, props)
             | Some t =>
-                match kind_of_name entity_t with
-                | None => Go (s1, props)
-                | Some k => generate_property o m k name t s1 props
+                (* generateGenericProperty<PropT> tests the name before the entity keyword *)
+                match name, kind_of_name entity_t with
+                | [], _ => Go (set_fail s1, props)
+                | _, None => Go (s1, props)
+                | _, Some k => generate_property o m k name t s1 props
                 end
             end
         end
@@ -448,16 +436,11 @@ Section Reader.
     let '(_, d2) := read_keyword (sstr_of (d_line d1)) d1 in
     if bytes_eqb (d_stmp d2) (bs kw) then Go d2 else Stop (ret_false d2).
 
-  (* getCleanLine; sstr >> n.  n_vertices / n_edges / n_faces are initialised to 0, `size_t n_cells;` is not
-     (FileManagerT_impl.hh:262): init = None *)
-  Definition read_count (init : option Z) (d : rd) : res (rd * Z) :=
+  (* getCleanLine; sstr >> n (size_t, initialised to 0; n_cells since fix 12ef533) *)
+  Definition read_count (d : rd) : res (rd * Z) :=
     doR d1 <- gcl d;
     let '(_, n) := get_num NU64 (sstr_of (d_line d1)) in
-    match n, init with
-    | Some z, _ => Go (d1, z)
-    | None, Some z => Go (d1, z)
-    | None, None => Stop (RUB UB_uninit_size)
-    end.
+    Go (d1, match n with Some z => z | None => 0 end).
 
   Definition valz (o : option Z) (old : Z) : Z := match o with Some z => z | None => old end.
 
@@ -589,22 +572,22 @@ Section Reader.
       doR d4 <- (if header_found then gcl d3 else Go d3);
       let '(_, d5) := read_keyword (sstr_of (d_line d4)) d4 in
       if negb (bytes_eqb (d_stmp d5) (bs "VERTICES")) then Stop (ret_false d5) else
-      doR (d6, nvd) <- read_count (Some 0) d5;
+      doR (d6, nvd) <- read_count d5;
       doR _ <- alloc o nvd 24;
       doR d7 <- vertex_loop (Z.to_nat nvd) d6;
       (* edges *)
       doR d8 <- section_header "EDGES" d7;
-      doR (d9, ned) <- read_count (Some 0) d8;
+      doR (d9, ned) <- read_count d8;
       doR _ <- alloc o ned 8;
       doR d10 <- edge_loop (Z.to_nat ned) nvd d9;
       (* faces *)
       doR d11 <- section_header "FACES" d10;
-      doR (d12, nfd) <- read_count (Some 0) d11;
+      doR (d12, nfd) <- read_count d11;
       doR _ <- alloc o nfd 24;
       doR d13 <- face_loop (Z.to_nat nfd) o (wrap64 (2 * ned)) d12;
       (* cells *)
       doR d14 <- section_header "POLYHEDRA" d13;
-      doR (d15, ncd) <- read_count None d14;
+      doR (d15, ncd) <- read_count d14;
       doR _ <- alloc o ncd 24;
       doR d16 <- cell_loop (Z.to_nat ncd) o (wrap64 (2 * nfd)) d15;
       Go d16 in
